@@ -54,7 +54,7 @@ Shifted(U, S, j) == {U.sh[j][a] : a \in S} \ {0}
 Target(k) ==
   CASE k.op \in {"New", "Build", "BitmapOf", "Clone", "AndS", "OrS", "XorS", "AndNotS", "FlipS", "AddOffset",
                  "DenseRT", "BitSetRT", "FastOr", "HeapOr", "ParOr", "ParHeapOr", "FastAnd", "ParAnd", "HeapXor",
-                 "Load", "FrozenRT", "LoadLegal", "Load64"} -> k.dst
+                 "Load", "FrozenRT", "LoadLegal", "Load64", "Adopt"} -> k.dst
     [] k.op \in {"Add", "AddInt", "CheckedAdd", "Remove", "CheckedRemove", "AddMany", "AddRange", "RemoveRange",
                  "Flip", "Clear", "RunOptimize", "SetCOW", "Detach", "And", "Or", "Xor", "AndNot", "AndAny"} -> k.x
     [] OTHER -> 0
@@ -66,7 +66,7 @@ Reads(k) ==
 \* New content of the target slot.
 NewContent(U, c, k) ==
   CASE k.op = "New" -> {}
-    [] k.op \in {"Build", "BitmapOf", "LoadLegal"} -> ToSet(As(k))
+    [] k.op \in {"Build", "BitmapOf", "LoadLegal", "Adopt"} -> ToSet(As(k))
     [] k.op \in {"Clone", "DenseRT", "BitSetRT", "Load", "FrozenRT", "Load64"} -> c[k.x]
     [] k.op \in {"Add", "AddInt", "CheckedAdd"} -> c[k.x] \cup {k.a}
     [] k.op \in {"Remove", "CheckedRemove"} -> c[k.x] \ {k.a}
@@ -132,6 +132,13 @@ SerialClauses(k, r) ==
     [] k.op = "Freeze" -> FrozenViolations(r)
     [] k.op = "FrozenRT" -> IF r.err THEN {"frozen-view-error"} ELSE {}
     [] k.op = "LoadLegal" -> IF r.err THEN {"legal-stream-rejected"} ELSE {}
+    \* untrusted bytes (C10): a decoder returns an error or returns normally; a proper prefix of a valid portable
+    \* stream is rejected; MustReadFrom = ReadFrom + panic exactly on a validation failure
+    [] k.op = "Decode" -> (IF r.outcome \in {"err", "ok"} THEN {} ELSE {"decoder-" \o r.outcome})
+                          \cup (IF r.prefix /\ r.outcome = "ok" THEN {"prefix-accepted"} ELSE {})
+    [] k.op = "MustRead" -> (IF r.panicked /\ (~r.readOK \/ r.validNil) THEN {"panic-without-validation-failure"} ELSE {})
+                            \cup (IF ~r.panicked /\ r.readOK /\ ~r.validNil THEN {"invalid-bitmap-not-reported"} ELSE {})
+                            \cup (IF ~r.panicked /\ ~(r.sameN /\ r.sameErr) THEN {"count-or-error-differs-from-ReadFrom"} ELSE {})
     [] k.op = "Ser64" -> {cl \in {"write-error", "size-mismatch", "returned-count", "writers-differ", "library-bitmap-invalid"} :
                             CASE cl = "write-error" -> r.err
                               [] cl = "size-mismatch" -> ~r.err /\ ~NEq(r.len, r.gsz)
@@ -146,7 +153,7 @@ HasResult(k) ==
   k.op \in {"CheckedAdd", "CheckedRemove", "AndCard", "OrCard", "Intersects", "Equals", "Contains", "IsEmpty",
             "Card", "Min", "Max", "Rank", "Select", "CardInRange", "IntersectsInterval", "NextValue",
             "PreviousValue", "NextAbsentValue", "PreviousAbsentValue", "ToArray", "ChecksumEq", "ChecksumRT",
-            "Ser", "Load", "WriteFail", "Freeze", "FrozenRT", "LoadLegal", "Ser64", "Load64"}
+            "Ser", "Load", "WriteFail", "Freeze", "FrozenRT", "LoadLegal", "Ser64", "Load64", "Decode", "MustRead"}
 
 ResultOK(U, c, k, r) ==
   CASE k.op = "CheckedAdd" -> r = (k.a \notin c[k.x])
